@@ -717,3 +717,8 @@ CONTROLS['C01'] += [
       expr_replace('core', 'IntersperseDataset.__init__', '(example_index + 1) / ds_len', '(example_index + 1) * (1 / ds_len)'),
       'position-is-one-exact-quotient', tier='quick'),
 ]
+CONTROLS['C02'] += [
+    C('finite stage wraps negative indices with modulo (N)',
+      F('core', 'CacheDataset.__getitem__', lambda n: isinstance(n, ast.If) and A.src(n.test) == 'item < 0',
+        lambda n: (setattr(n, 'body', M.parse_stmt('item = item % len(self)')), n)[1]), 'index-not-wrapped-with-modulo'),
+]
